@@ -182,6 +182,8 @@ type FX struct {
 	rngPos    T
 	rngPos0   T
 	rngReads  int
+	failN     int
+	warnings  []string
 	cuts      []cutPoint
 	assertsSeen map[string]bool
 	lineMeta []lineInfo
@@ -836,7 +838,7 @@ func (fx *FX) run() {
 		}
 		var reqs []T
 		for _, r := range fx.fc.Requires {
-			t := fx.evalBool(env, r.E)
+			t := fx.hypBool(env, r.E)
 			reqs = append(reqs, t)
 			fx.assume(tTrue, t)
 		}
@@ -951,7 +953,7 @@ func (fx *FX) bindName(st *State, name string, v ssa.Value) {
 			if in, ok := v.(ssa.Instruction); ok {
 				pos = in.Pos()
 			}
-			fx.oblige("assert", a.C.Label, st.PC, fx.evalBool(env, a.C.E), pos, a.C.Src)
+			fx.oblige("assert", a.C.Label, st.PC, fx.goalBool(env, a.C.E), pos, a.C.Src)
 			if a.Cut {
 				fx.cuts = append(fx.cuts, cutPoint{idx: len(fx.lines), block: fx.curBlock})
 			}
@@ -959,8 +961,37 @@ func (fx *FX) bindName(st *State, name string, v ssa.Value) {
 	}
 }
 
+// fail: a contract clause that cannot be evaluated against the current code (unknown name, loop
+// that no longer exists, ...). It is not an engine error: the clause is dropped where it is a
+// hypothesis and counts as false where it is a goal, so the function must be provable without it.
 func (fx *FX) fail(format string, a ...any) {
-	fx.u.errors = append(fx.u.errors, fmt.Sprintf("%s: ", fx.name)+fmt.Sprintf(format, a...))
+	msg := fmt.Sprintf(format, a...)
+	fx.failN++
+	for _, w := range fx.warnings {
+		if w == msg {
+			return
+		}
+	}
+	fx.warnings = append(fx.warnings, msg)
+}
+
+// goalBool / hypBool evaluate a clause as proof goal / as hypothesis.
+func (fx *FX) goalBool(env *Env, e Expr) T {
+	n := fx.failN
+	t := fx.evalBool(env, e)
+	if fx.failN != n {
+		return tFalse
+	}
+	return t
+}
+
+func (fx *FX) hypBool(env *Env, e Expr) T {
+	n := fx.failN
+	t := fx.evalBool(env, e)
+	if fx.failN != n {
+		return tTrue
+	}
+	return t
 }
 
 // markEntryAllocated: every object directly referenced by a parameter exists at entry.
@@ -1268,7 +1299,7 @@ func (fx *FX) enterLoop(li *loopInfo, h *ssa.BasicBlock, conds []T, sts []*State
 		env := fx.loopEnv(li, sts[k], func(phi *ssa.Phi) Val { return fx.val(phi.Edges[predIdx[k]]) }, phis)
 		if li.lc != nil {
 			for _, c := range li.lc.Inv {
-				fx.oblige("inv-entry", fmt.Sprintf("loop%d.%s", li.ordinal, c.Label), conds[k], fx.evalBool(env, c.E), h.Instrs[0].Pos(), c.Src)
+				fx.oblige("inv-entry", fmt.Sprintf("loop%d.%s", li.ordinal, c.Label), conds[k], fx.goalBool(env, c.E), h.Instrs[0].Pos(), c.Src)
 			}
 		}
 	}
@@ -1317,7 +1348,7 @@ func (fx *FX) enterLoop(li *loopInfo, h *ssa.BasicBlock, conds []T, sts []*State
 	env := fx.loopEnv(li, st, func(phi *ssa.Phi) Val { return fx.vals[phi] }, phis)
 	if li.lc != nil {
 		for _, c := range li.lc.Inv {
-			fx.assume(st.PC, fx.evalBool(env, c.E))
+			fx.assume(st.PC, fx.hypBool(env, c.E))
 		}
 		if li.lc.Decreases != nil {
 			li.variant = fx.def("variant", fx.evalInt(env, li.lc.Decreases.E))
@@ -1568,7 +1599,7 @@ func (fx *FX) closeLoop(li *loopInfo, from *ssa.BasicBlock, succIdx int) {
 	env := fx.loopEnv(li, st, func(phi *ssa.Phi) Val { return fx.val(phi.Edges[pidx]) }, phis)
 	if li.lc != nil {
 		for _, c := range li.lc.Inv {
-			fx.oblige("inv-pres", fmt.Sprintf("loop%d.%s", li.ordinal, c.Label), cond, fx.evalBool(env, c.E), from.Instrs[len(from.Instrs)-1].Pos(), c.Src)
+			fx.oblige("inv-pres", fmt.Sprintf("loop%d.%s", li.ordinal, c.Label), cond, fx.goalBool(env, c.E), from.Instrs[len(from.Instrs)-1].Pos(), c.Src)
 		}
 		if li.lc.Decreases != nil {
 			nv := fx.evalInt(env, li.lc.Decreases.E)
